@@ -253,20 +253,18 @@ def shards(tier: str, seed: int) -> list[dict[str, Any]]:
     out: list[dict[str, Any]] = []
     for n in range(1, nmax + 1):
         for flavour in FLAVOURS:
-            names = list(weight_vectors(n))
-            for wname in names:
-                masks = list(range(2**n))
-                for group in core.chunked(masks, max(1, len(masks) // (1 if n < 5 else 4 if n < 6 else 16))):
-                    out.append({"kind": "direct", "flavour": flavour, "n": n, "weights": wname, "masks": group, "seed": seed})
+            masks = list(range(2**n))
+            for group in core.chunked(masks, max(1, len(masks) // (1 if n < 4 else 4 if n < 5 else 16 if n < 6 else 64))):
+                out.append({"kind": "direct", "flavour": flavour, "n": n, "masks": group, "seed": seed})
     if tier == "thorough":
         for flavour in FLAVOURS:
-            for group in core.chunked(list(range(2**7)), 4):
-                out.append({"kind": "direct", "flavour": flavour, "n": 7, "weights": "uniform", "masks": group, "seed": seed})
+            for group in core.chunked(list(range(2**7)), 2):
+                out.append({"kind": "direct", "flavour": flavour, "n": 7, "masks": group, "seed": seed})
     out.append({"kind": "window", "nmax": nmax + 1, "seed": seed})
     for n in ((3,) if tier == "quick" else (2, 3, 4)):
         fmaps = list(itertools.product((-1, 0, 1), repeat=4))
-        for group in core.chunked(fmaps, 9 if n < 4 else 3):
-            for wname in (("ramp",) if tier == "quick" else ("uniform", "ramp", "zero")):
+        for group in core.chunked(fmaps, 27 if (n < 4 and tier == "quick") else 9 if n < 4 else 3):
+            for wname in ("uniform", "ramp", "zero"):
                 out.append({"kind": "e2e", "n": n, "fmaps": group, "weights": wname, "seed": seed})
     return out
 
@@ -299,19 +297,23 @@ def run_shard(shard: dict[str, Any]) -> core.ShardResult:
                     rec.add(("e", n, fmap, perm, mask, wname),
                             {"kind": "e2e", "n": n, "fmap": list(fmap), "perm": list(perm), "mask": mask, "weights": wname, "seed": seed}, j)
         return rec.finish()
-    n, flavour, wname = shard["n"], shard["flavour"], shard["weights"]
+    n, flavour = shard["n"], shard["flavour"]
     table = key_table(n, seed)
-    weights = weight_vectors(n)[wname]
     windows = [(a, b) for a in range(n) for b in range(a, n)]
+    manager, _ = make_manager()
+    # The filters of ALL weight vectors are created one after the other through the plug-in manager in this process
+    # (same method, same options, same ensemble size - only the configured weights differ).
     built = {}
-    for first, last in windows:
-        config = validate(build_config(flavour, n, weights, first, last))
-        built[(first, last)] = (config, DefaultRealizationFilter(config, 0))
+    for wname, weights in weight_vectors(n).items():
+        for first, last in windows:
+            config = validate(build_config(flavour, n, weights, first, last))
+            method = config.realization_filters[0].method
+            built[(wname, first, last)] = (config, manager.get_plugin("realization_filter", method=method).create(config, 0))
     for mask in shard["masks"]:
         failed = np.array([(mask >> i) & 1 == 1 for i in range(n)])
         for perm in itertools.permutations(range(n)):
             keys = table[list(perm)]
-            for (first, last), (config, flt) in built.items():
+            for (wname, first, last), (config, flt) in built.items():
                 j = judge_direct(flt, config, flavour, keys, failed, first, last)
                 rec.add(("d", flavour, n, wname, mask, perm, first, last),
                         lambda: case_direct(flavour, n, wname, perm, mask, first, last, seed), j)
@@ -327,7 +329,8 @@ def run_case(case: dict[str, Any]) -> Judgement:
         return judge_e2e(case["n"], tuple(case["fmap"]), tuple(case["perm"]), case["mask"], case["weights"], case["seed"])
     n = case["n"]
     config = validate(build_config(case["flavour"], n, weight_vectors(n)[case["weights"]], case["first"], case["last"]))
-    flt = DefaultRealizationFilter(config, 0)
+    manager, _ = make_manager()
+    flt = manager.get_plugin("realization_filter", method=config.realization_filters[0].method).create(config, 0)
     failed = np.array([(case["mask"] >> i) & 1 == 1 for i in range(n)])
     keys = key_table(n, case["seed"])[list(case["perm"])]
     return judge_direct(flt, config, case["flavour"], keys, failed, case["first"], case["last"])
